@@ -26,7 +26,6 @@ LARK_FAMILY = {"ParseError", "UnexpectedInput", "UnexpectedToken", "UnexpectedCh
 SAFE_TABLE = {
     ("parser.Parser._get_include_filename", "line.split('#')[0]"): "str.split never returns an empty list",
     ("parser.Parser.load_includes", "lines.pop(idx)"): "idx enumerates the same list and the replacement is index-stable (C15 I4)",
-    ("parser.Parser._assign_comments", "self.comments_dict.pop(line_number)"): "line_number iterates the dictionary's own keys",
 }
 RAISE_TABLE = {
     ("parser.Parser.load_includes", "ValueError"): "include nesting beyond 5 levels: the error C15 prescribes",
@@ -63,12 +62,17 @@ def run(ctx: Ctx) -> None:
                 if (q, key) in SAFE_TABLE:
                     ctx.ok("X1", f"{q} | {key}", repo.loc(mod, n), "tabled: " + SAFE_TABLE[(q, key)], nontrivial=False)
                     continue
+                if idx in (0, -1) and isinstance(n.value, ast.Call) and isinstance(n.value.func, ast.Attribute) and ((n.value.func.attr in ("split", "rsplit") and n.value.args) or n.value.func.attr in ("partition", "rpartition")):
+                    ctx.ok("X1", f"{q} | {key}", repo.loc(mod, n), "str.split(sep) / partition never return an empty sequence")
+                    continue
                 good, why = _index_guarded(fn, n, idx)
                 ctx.check(good, "X1", f"{q} | {key}", repo.loc(mod, n), why, f"{key}: index {idx} of a sequence whose length depends on the input is not dominated by a length / emptiness test: IndexError can escape loads() ({why})")
             elif isinstance(n, ast.Call) and isinstance(n.func, ast.Attribute) and n.func.attr == "pop" and n.args and not isinstance(n.func.value, ast.Call):
                 key = norm(n)
                 if (q, key) in SAFE_TABLE:
                     ctx.ok("X1", f"{q} | {key}", repo.loc(mod, n), "tabled: " + SAFE_TABLE[(q, key)], nontrivial=False)
+                elif _pops_own_key(fn, n):
+                    ctx.ok("X1", f"{q} | {key}", repo.loc(mod, n), "the key popped is a loop variable ranging over a snapshot of that dictionary's own keys")
                 elif len(n.args) >= 2:
                     ctx.ok("X1", f"{q} | {key}", repo.loc(mod, n), "pop with default", nontrivial=False)
                 else:
@@ -216,6 +220,51 @@ def _assert_on_defaults(facts, direct, q: str, fn: ast.FunctionDef, node: ast.As
         return bool(eval(compile(ast.Expression(node.test), "<assert>", "eval"), {"__builtins__": {}}, env))
     except Exception:
         return False
+
+
+def _pops_own_key(fn: ast.FunctionDef, call: ast.Call) -> bool:
+    """``D.pop(k)`` where k is the variable of an enclosing for-loop / comprehension whose iterable is a
+    snapshot of D's keys: D, D.keys(), list/sorted/tuple of those, a filtered comprehension over those,
+    or a local bound once to such an expression."""
+    if not (isinstance(call.args[0], ast.Name) and isinstance(call.func, ast.Attribute)):
+        return False
+    k = call.args[0].id
+    base = norm(call.func.value)
+    parents = {}
+    for par in ast.walk(fn):
+        for ch in ast.iter_child_nodes(par):
+            parents[ch] = par
+    assigns: dict = {}
+    for st in ast.walk(fn):
+        if isinstance(st, ast.Assign) and len(st.targets) == 1 and isinstance(st.targets[0], ast.Name):
+            assigns.setdefault(st.targets[0].id, []).append(st.value)
+
+    def from_keys(e: ast.AST, depth: int = 0) -> bool:
+        if depth > 5:
+            return False
+        if norm(e) == base:
+            return True
+        if isinstance(e, ast.Call) and isinstance(e.func, ast.Attribute) and e.func.attr == "keys" and norm(e.func.value) == base:
+            return True
+        if isinstance(e, ast.Call) and dotted(e.func) in ("list", "sorted", "tuple", "reversed") and e.args:
+            return from_keys(e.args[0], depth + 1)
+        if isinstance(e, (ast.ListComp, ast.GeneratorExp)) and len(e.generators) == 1 and isinstance(e.elt, ast.Name) and isinstance(e.generators[0].target, ast.Name) and e.elt.id == e.generators[0].target.id:
+            return from_keys(e.generators[0].iter, depth + 1)
+        if isinstance(e, ast.Name) and len(assigns.get(e.id, [])) == 1:
+            return from_keys(assigns[e.id][0], depth + 1)
+        return False
+
+    # a snapshot is needed when the loop itself pops: iterating D directly while popping would raise
+    n: ast.AST = call
+    while n in parents:
+        n = parents[n]
+        if isinstance(n, ast.For) and isinstance(n.target, ast.Name) and n.target.id == k:
+            return from_keys(n.iter) and norm(n.iter) != base
+        if isinstance(n, (ast.ListComp, ast.GeneratorExp, ast.SetComp)):
+            for g in n.generators:
+                if isinstance(g.target, ast.Name) and g.target.id == k:
+                    return from_keys(g.iter) and norm(g.iter) != base
+    return False
 
 
 def _index_guarded(fn: ast.FunctionDef, sub: ast.Subscript, idx: int) -> tuple[bool, str]:
